@@ -56,7 +56,21 @@ def argmax(
     """
     a = numpoly.aspolynomial(a)
     options = numpoly.get_options()
+    # Equal elements are ranked in array order, so the largest rank among ties
+    # is the *last* occurrence. Ranking the reversed array and mirroring the
+    # index back gives the first occurrence, like numpy.argmax.
+    if axis is None:
+        flipped = numpoly.reshape(a, (-1,))[::-1]
+        length = a.size
+    else:
+        axis = axis + a.ndim if axis < 0 else axis
+        flipped = a[(slice(None),) * axis + (slice(None, None, -1),)]
+        length = a.shape[axis]
     proxy = numpoly.sortable_proxy(
-        a, graded=options["sort_graded"], reverse=options["sort_reverse"]
+        flipped, graded=options["sort_graded"], reverse=options["sort_reverse"]
     )
-    return numpy.argmax(proxy, axis=axis, out=out)
+    index = length - 1 - numpy.argmax(proxy, axis=axis)
+    if out is not None:
+        out[...] = index
+        return out
+    return index
